@@ -277,6 +277,65 @@ def copies_unit(ctx):
     return "ok"
 
 
+@unit("plumbing.Graph.copy-is-independent", props=["C13", "C14"], functions=[(GR, "Graph")],
+      assumptions=["networkx.MultiDiGraph.copy as documented when the tree's Graph IS that class; whatever the tree defines instead is run natively on a small graph "
+                   "(nodes with and without attributes, parallel edges with and without data)"],
+      min_obligations=3, kind="concrete-parametric")
+def graph_copy_unit(ctx):
+    """T5 for `copy`, on the real Graph class of the working tree (the alias of networkx.MultiDiGraph at the pinned commit, possibly a subclass with its own
+    copy later): Plan.copy, run's working copy, the plan handed to transform_physical, the plan a dry run returns and render's copy all go through it.
+    Nothing reachable from the copy and writable through the graph API is shared with the original: node table, adjacency, per-node attribute dicts,
+    per-edge data dicts, graph attributes."""
+    import importlib
+
+    from ujvc.z3env import ensure_repo_first
+
+    ensure_repo_first()
+    gmod = importlib.import_module("uberjob.graph")
+    G = gmod.Graph
+    a, b, c = gmod.Literal(1), gmod.Call(len), gmod.Call(len)
+    g = G()
+    g.graph["title"] = "orig"
+    g.add_node(a, note="a0")
+    g.add_node(b)
+    g.add_node(c)
+    g.add_edge(a, b, gmod.PositionalArg(0), w=1)
+    g.add_edge(a, b, gmod.Dependency())
+    g.add_edge(b, c, gmod.KeywordArg("x", 0))
+
+    def snapshot(gr):
+        return (dict(gr.graph), [(n, dict(d)) for n, d in gr.nodes(data=True)], [(u, v, k, dict(d)) for u, v, k, d in gr.edges(keys=True, data=True)])
+
+    before = snapshot(g)
+    h = g.copy()
+    ctx.check("copy:same-nodes(the-very-objects),edges,keys,attributes", bool(snapshot(h) == before and type(h) is type(g) and all(x is y for (x, _), (y, _) in zip(before[1], snapshot(h)[1]))))
+    which = ctx.choose(5, "write-on-the-copy")
+    if which == 0:
+        h.nodes[a]["note"] = "changed"
+        h.nodes[b]["tag"] = 1
+    elif which == 1:
+        h.edges[a, b, gmod.PositionalArg(0)]["w"] = 2
+        h.edges[b, c, gmod.KeywordArg("x", 0)]["seen"] = True
+    elif which == 2:
+        h.remove_edge(a, b, gmod.Dependency())
+        h.remove_node(c)
+    elif which == 3:
+        d = gmod.Call(len)
+        h.add_node(d, fresh=True)
+        h.add_edge(c, d, gmod.Dependency())
+        h.add_edge(a, b, gmod.PositionalArg(1))
+    else:
+        h.graph["title"] = "copy"
+        h.graph["extra"] = 1
+    ctx.check("copy:whatever-is-written-on-the-copy(node-attributes,edge-data,structure,graph-attributes)-leaves-the-original-untouched", bool(snapshot(g) == before),
+              info=f"write {which}: {snapshot(g)!r} vs {before!r}")
+    h2 = g.copy()
+    g.nodes[a]["note"] = "orig-changed"
+    g.add_edge(b, c, gmod.Dependency())
+    ctx.check("copy:later-writes-on-the-original-do-not-reach-an-earlier-copy", bool(snapshot(h2) == before))
+    return "ok"
+
+
 _SEEN = []
 
 
@@ -361,8 +420,9 @@ def registry_unit(ctx):
 class LazyIter:
     """an iterable that records how far it was consumed (unpack must not drain an infinite iterable)"""
 
-    def __init__(self, n):
+    def __init__(self, n, item=None):
         self.n, self.taken = n, 0
+        self.item = item or (lambda i: ("item", i))
 
     def __iter__(self):
         return self
@@ -371,7 +431,7 @@ class LazyIter:
         if self.n is not None and self.taken >= self.n:
             raise StopIteration
         self.taken += 1
-        return ("item", self.taken - 1)
+        return self.item(self.taken - 1)
 
 
 @unit("plumbing.unpack", props=["C02"], functions=[(BI, "unpack"), (PL, "Plan.unpack")],
@@ -385,10 +445,14 @@ def unpack_unit(ctx):
     length = ctx.choose(4, "length")
     rel = ctx.choose(4, "iterable")  # shorter / equal / longer / infinite
     n = [max(length - 1, 0), length, length + 2, None][rel]
-    it = LazyIter(n)
+    # what the iterable yields: pairwise distinct truthy items, or the items a user's data may well contain - None, False, 0, empty containers:
+    # "is there one more item?" must be decided by the iteration protocol, never by looking at an item
+    awkward = (None, (), "", None, 0.0, None, [])
+    item = (lambda i: ("item", i)) if ctx.choose(2, "item-kind") == 0 else (lambda i: awkward[i % len(awkward)])
+    it = LazyIter(n, item)
     # the same contract for SIZED inputs of every kind (a fast path through len() must not change what is yielded): the items in iteration order, as a tuple
     if n is not None:
-        items = [("item", i) for i in range(n)]
+        items = [item(i) for i in range(n)]
         for mk, what in ((list, "list"), (tuple, "tuple"), (lambda xs: {x: "v" for x in reversed(xs)}, "dict(keys,insertion-order-differs-from-sorted)"),
                          (lambda xs: dict.fromkeys(reversed(xs)).keys(), "dict-view"), (lambda xs: iter(xs), "iterator")):
             src = mk(items)
@@ -416,7 +480,7 @@ def unpack_unit(ctx):
     kind, val = _catch(ctx, lambda: f(it, length))
     exact = (n == length)
     if exact:
-        ctx.check("exact-length=>tuple-of-exactly-the-n-items-in-order", bool(kind == "ret" and val == tuple(("item", i) for i in range(length)) and type(val) is tuple))
+        ctx.check("exact-length=>tuple-of-exactly-the-n-items-in-order", bool(kind == "ret" and type(val) is tuple and len(val) == length and all(a is b or a == b for a, b in zip(val, (item(i) for i in range(length))))))
     else:
         ctx.check("wrong-length=>ValueError", bool(kind == "raise" and isinstance(val, ValueError)))
     ctx.check("consumes-at-most-n+1-items(an-infinite-iterable-is-not-drained)", bool(it.taken <= length + 1))
